@@ -10,6 +10,7 @@ import random
 import re
 
 import lib
+from props import c16front        # builder errors from the text on (FrontEnd.v), its own leg
 
 
 def hx(s):
@@ -676,6 +677,7 @@ def run(res, tier, seed, proof):
             errclasses[key] = errclasses.get(key, 0) + 1
     sem = run_semantic(res, tier, random.Random(seed + 1))
     longl = run_long_lines(res, tier)
+    front = c16front.run_leg(res, tier, random.Random(seed + 2))
     distinct = len(set(cases))
     nontriv = len({c for c, g in zip(cases, go) if (g.startswith("ok (") or (g.startswith("err") and ":" in g))})
     pick = [i for i, k in enumerate(kinds) if k in ("well-formed", "fault:bad-escape", "fault:extra-close")]
@@ -692,7 +694,7 @@ def run(res, tier, seed, proof):
                     "missing import / include; one or several files); every file:line:col anywhere in a Modules.Parse or Process error must be "
                     "a statement start of a loaded file, of the right kind for the message, and for the classes the property lists exactly "
                     "the marked faulty statement" % (4 if tier == "quick" else 5, len(FAULTS), len(SEM_CASES)),
-               mismatches=mism, model_out_of_fuel=oof, semantic_error_positions=sem, long_lines=longl, statement_positions_compared=npos, error_positions_compared=nerrpos,
+               mismatches=mism, model_out_of_fuel=oof, builder_errors_from_text=front, semantic_error_positions=sem, long_lines=longl, statement_positions_compared=npos, error_positions_compared=nerrpos,
                distribution=dict(kind_by_outcome=dist, error_lists=errclasses),
                samples=[cases[i] for i in sample_idx], sample_observations=[go[i] for i in sample_idx])
     return cov, ["UTF-8 decoding (utf8.DecodeRuneInString; invalid byte => U+FFFD of width 1) is done by the harness as Go does it and "
@@ -713,6 +715,8 @@ def replay(rep, res):
         print("impl :", o[:1500])
         print("was  :", rep.get("what"))
         return 1
+    if rep.get("kind") == "front":
+        return c16front.replay(rep)
     c = rep["case"]
     if rep.get("kind") == "long-line":
         g = lib.run_go([c])[0]
